@@ -139,7 +139,7 @@ theorem shl32_bv (x : BitVec 32) (n : Nat) (hn : n < 32) :
 
 /-- `lt` of the source: all-ones iff `a < b` -/
 theorem lt_meaning (a b : BitVec 32) : DivLimb.lt a b = if a < b then ~~~0#32 else 0#32 := by
-  simp only [gen_defs]; bv_decide
+  simp only [gen_defs]; (try simp only [BitVec.mul_comm]); bv_decide
 /-- `select` of the source: `b` iff the mask is all-ones, `a` iff it is zero -/
 theorem select_meaning32 (a b : BitVec 32) :
     DivLimb.select a b 0#32 = a ∧ DivLimb.select a b (~~~0#32) = b := by
